@@ -106,15 +106,32 @@ def run_unit(seed=None, unit=None, tier="quick", stats=None, prop="C06"):
     sched_tapes = []
     n = n_sched if sched_values is None else len(sched_values)
     rendered = None
-    for r in range(n):
+    # stop-instant sweep (DESIGN §4-C06): stopat = [2, t] closes the payload stream at the
+    # consumer's first opportunity at or after loop iteration t ([2, 0]: never; the base run);
+    # given by a replayed unit, or walked below for selected units over every iteration of
+    # schedule 0
+    stopat = list(unit.get("stopat") or ()) if unit is not None else []
+    sweep_queue = []
+    sweep_hit = None
+    sweep_base = None
+    r = -1
+    while True:
+        r += 1
+        if r >= n:
+            if not sweep_queue:
+                break
+            stopat = sweep_queue.pop(0)
+            st = Tape(values=sweep_base)
+        else:
+            st = (Tape(values=sched_values[r]) if sched_values is not None
+                  else Tape((seed, "w2sched", r)))
         pt = Tape(values=ptape.used()) if r else ptape
         spec = GraphSpec(pt, big=tier == "thorough")
         if r == 0:
             rendered = spec.render()
             digests.append(rendered)
-        st = (Tape(values=sched_values[r]) if sched_values is not None
-              else Tape((seed, "w2sched", r)))
-        sched_tapes.append(st)
+        if r < n:
+            sched_tapes.append(st)
         sim = Sim(st)
         early = bool(st.draw(2, "w2_early"))
         capacity = (100, 1, 2, 3)[st.draw(4, "w2_cap")]
@@ -134,9 +151,19 @@ def run_unit(seed=None, unit=None, tier="quick", stats=None, prop="C06"):
         ann_labels = set()
 
         close_delay = bool(st.draw(2, "w2_close_delay"))
+        close_fut = None
+        if len(stopat) >= 2 and stopat[0] == 2:
+            close_after = 999
+            close_delay = False
+            bump(stats, "probes", "w2_stop_instant_sweep_runs")
+            if stopat[1] > 0:
+                close_fut = sim.loop.create_future()
+                sim.action("closegate", lambda f=close_fut: f.done() or f.set_result(None),
+                           not_before=stopat[1])
 
         async def main(world=world, ctx=ctx, out=out, close_after=close_after, sim=sim,
-                       spec=spec, ann_labels=ann_labels, close_delay=close_delay):
+                       spec=spec, ann_labels=ann_labels, close_delay=close_delay,
+                       close_fut=close_fut):
             work = world.build(spec.initial)
             ctx.initial_computations = list(world.computations)
             ctx.initial_queues = list(world.queues)
@@ -146,7 +173,7 @@ def run_unit(seed=None, unit=None, tier="quick", stats=None, prop="C06"):
                 ann_labels.add(pe_.get("label"))
             k = 0
             while True:
-                if k == close_after:
+                if k == close_after or (close_fut is not None and close_fut.done()):
                     if close_delay:
                         out["waiting"] = "gate"
                         await sim.external("gate:close", "gate", ("value", None)).fut
@@ -159,7 +186,14 @@ def run_unit(seed=None, unit=None, tier="quick", stats=None, prop="C06"):
                     out["closed"] = True
                     return
                 out["waiting"] = "gate"
-                await sim.external(f"gate:pull#{k}", "gate", ("value", None)).fut
+                gate = sim.external(f"gate:pull#{k}", "gate", ("value", None)).fut
+                if close_fut is not None:
+                    # the same pending set as the base run; whichever comes first
+                    await asyncio.wait({gate, close_fut}, return_when=asyncio.FIRST_COMPLETED)
+                    if close_fut.done():
+                        continue
+                else:
+                    await gate
                 out["waiting"] = "anext"
                 try:
                     pl_ = await it.__anext__()
@@ -179,6 +213,8 @@ def run_unit(seed=None, unit=None, tier="quick", stats=None, prop="C06"):
 
         status = sim.run(main())
         bump(stats, "counts", "w2_runs")
+        if close_after == 999:
+            close_after = out["payloads"] if out["closed"] else 999
         if stats is not None:
             stats["polls"] = stats.get("polls", 0) + sim.poll
             stats["externals"] = stats.get("externals", 0) + len(sim.externals)
@@ -276,8 +312,30 @@ def run_unit(seed=None, unit=None, tier="quick", stats=None, prop="C06"):
                                         "close_after": close_after},
                               "outcome": dict(out, error=repr(out["error"])),
                               "hook_calls": ctx.hook_calls}
+        polls = sim.poll
         sim.close()
+        if r >= n:
+            if vs:
+                # found by the sweep: the replay is the base schedule plus the stop instant
+                for v in vs:
+                    v.fingerprint["sweep"] = True
+                    v.detail["stopat"] = list(stopat)
+                sched_tapes = [st]
+                sweep_hit = list(stopat)
+                break
+            if stopat[1] == 0:
+                # the base run (never closed): every iteration of it is a stop instant
+                tmax = min(polls, 40 if tier == "quick" else 80)
+                sweep_queue = [[2, t] for t in range(1, tmax + 1)]
+            elif not sweep_queue:
+                bump(stats, "probes", "w2_stop_instant_sweeps_completed")
+        elif (r == n - 1 and unit is None and not violations and sched_tapes
+              and seed is not None and (seed[2] // 8) % 3 == 0):
+            sweep_base = sched_tapes[0].used()
+            sweep_queue = [[2, 0]]
     info["unit"] = {"world": "W2", "plan": ptape.used(), "scheds": [t.used() for t in sched_tapes]}
+    if sweep_hit or (unit is not None and unit.get("stopat")):
+        info["unit"]["stopat"] = sweep_hit or list(unit["stopat"])
     info["digest"] = digest_of(digests)
     info["render"] = {"graph": rendered}
     return violations, info
